@@ -27,9 +27,13 @@ from gen import typenames_gen as G
 K_LOOP = "osdev-snprintf-unknown-bit-loop"
 K_E0 = "type-sscanf-literal-overread-0xe0"
 K_BRIDGE = "xml-bridge-type-unchecked"
+K_DU = "level-text-data-vs-unified-cache"
 CORPUS = os.path.join(C.VERIF, "corpus", "c11")
 SWITCH_HINT = ("  (if a fix-C11-* patch was just committed to /repo, apply the matching /verif/patches/verif-C11-after-*.diff "
                "so that the model follows the fixed code)")
+
+
+XML_GEN_DIR = os.path.join(C.BUILD, "c11-xml")      # generated XML inputs (deterministic content, rewritten on every run)
 
 
 class Tools:
@@ -430,7 +434,12 @@ def topo_cases(run, T, srcs):
             d, n, differ = int(m.group(1)), int(m.group(3)), int(m.group(4))
             run.count(l, nontrivial=n > 1, kind="level")
             # bridges (host vs PCI) and OS devices of one special level legitimately differ (DESIGN 6.C11)
-            if differ and d not in (-4, -6):
+            mo = re.search(r"first=(\S*) other=(\S*)$", l)
+            if differ and mo and re.fullmatch(r"L\d+(Cache)?", mo.group(1).replace("d", "", 1)) and mo.group(1).replace("d", "", 1) == mo.group(2).replace("d", "", 1) \
+               and "i" not in mo.group(1) + mo.group(2):
+                # data and unified caches of the same depth share one object type (hence one level) but not one text
+                run.violation(K_DU, "objects of one level print different type texts: %s (%s)" % (l, cur), "kind: input\ncase: %s\n%s\n" % (cur, l))
+            elif differ and d not in (-4, -6):
                 run.violation("level-type-text-differs:%s:%d" % (src_key(cur), d),
                               "objects of one level print different type texts: %s (%s)" % (l, cur), "kind: input\ncase: %s\n%s\n" % (cur, l))
         elif l.startswith("robj "):
@@ -457,6 +466,7 @@ def topo_cases(run, T, srcs):
 def xml_sources():
     xs = sorted(glob.glob(os.path.join(C.REPO, "tests/hwloc/xml/*.xml")))
     xs += sorted(glob.glob(os.path.join(CORPUS, "*.xml")))
+    xs += G.xml_cache_docs(XML_GEN_DIR)     # cache type string x cache_type x depth: only coherent ones may load
     return ["topo xml " + x for x in xs] + ["topo synthetic " + s for s in G.SYNTHETIC]
 
 
@@ -485,6 +495,7 @@ def check(run, replay=None):
     T = Tools()
     ck = Checker(run, T)
     if replay:
+        G.xml_cache_docs(XML_GEN_DIR)
         txt = open(replay).read()
         cases = [l[6:] for l in txt.split("\n") if l.startswith("case: ") and l[6:].split(" ", 1)[0].rstrip("!") in ("tsn", "asn", "ssc", "tstr", "cmp", "kind", "tier", "clsweep", "sad", "gtd")]
         topos = [l[6:] for l in txt.split("\n") if l.startswith("case: topo ")]
